@@ -43,6 +43,27 @@ CHECKS["C12"] = dict(
           "well-typedness (operands sharing a type variable share a type) for first-vs-last binding; pyvc and z3 trusted."),
     design="DESIGN.md section 4 C12")
 
+CHECKS["C17"] = dict(
+    text=("Exhaustive: every method of every generated opset class (all domains/versions in all_opsets) is executed from its real "
+          "source by the pyvc interpreter with token arguments (the bodies are straight-line) and compared with the installed "
+          "onnx.defs registry: schema name/domain/since_version, Op construction, inputs in schema order through _prepare_inputs, "
+          "each attribute forwarded under its own name, keyword-only attribute parameters with defaults equal to the schema defaults; "
+          "every (class, operator) pair through the MRO and the dynamic lookups (__getitem__/__contains__) agree with the registry. "
+          "The obligations are ground after enumerating the finite registry and are decided by evaluation (exhaustive: true). "
+          "_prepare_inputs trimming is a bounded stand-in (<= 5 inputs)."),
+    note="Assumed: onnx.defs of the installed onnx is the data oracle; Op.__call__/evaluator covered by C01; pyvc interpreter trusted.",
+    design="DESIGN.md section 4 C17",
+    technique="contract-based: uniform symbolic execution of the real generated methods (pyvc interpreter) + exhaustive evaluation of ground obligations against the onnx.defs registry")
+CHECKS["C20"] = dict(
+    text=("Proof, for every path of the real save_model_with_external_data and any number of initializers (symbolic-length sequence), "
+          "of three path contracts over a ghost effect log: (1) every ir.save call is dominated by the uninitialized-initializer guard "
+          "and the ValueError path performs no file-system call; (2) nothing reachable from the model is written, also inside the "
+          "progress callback; (3) ir.save is called once with (model, model_path, external_data = basename(model_path)+'.data') — "
+          "relative sibling (string theory)."),
+    note=("Residual, not claimed: that onnx_ir.save round-trips and restores in-memory tensors when a write fails part-way is a "
+          "contract of the dependency; fault enumeration over file-system calls is a different technique family. pathlib/tqdm modelled."),
+    design="DESIGN.md section 4 C20")
+
 NOT_APPLICABLE = {
     "C08": "oracle is PyTorch eager for ~550 ATen ops; no contract within reach can state it (DESIGN.md section 5)",
     "C19": "fused operators are ONNX Runtime contrib kernels defined only by ORT C++; no deductive oracle (DESIGN.md section 5)",
